@@ -258,6 +258,10 @@ func (g *vgen) toInternal(te *gq.TypeExpr, v interface{}) interface{} {
 	return v
 }
 
+// every spelling class strconv.ParseFloat reads as NaN / ±Inf (case-insensitive, optional sign for inf), plus near misses
+var nonFinite = []string{"NaN", "nan", "NAN", "nAn", "Inf", "inf", "INF", "+Inf", "+inf", "-inf", "-Inf", "-INF", "Infinity", "infinity",
+	"+Infinity", "-INFINITY", "-infinity", "iNfInItY", "+nan", "-nan", "infin", "nanx", "in", "+", "-"}
+
 var strPool = []string{"s", "hello", "x y", "", "5", "abc", "true", "RED", "A"}
 
 func (g *vgen) val(te *gq.TypeExpr, depth int, allowNull bool) interface{} {
@@ -291,7 +295,10 @@ func (g *vgen) val(te *gq.TypeExpr, depth int, allowNull bool) interface{} {
 	switch te.Name {
 	case "Int":
 		if bad {
-			switch r.Intn(9) {
+			switch r.Intn(10) {
+			case 9:
+				g.tag("v:int-nonfinite-string")
+				return r.Pick(nonFinite)
 			case 0:
 				g.tag("v:int-out-of-range")
 				return []interface{}{2147483648, -2147483649, 3000000000, 9007199254740993}[r.Intn(4)]
@@ -323,7 +330,10 @@ func (g *vgen) val(te *gq.TypeExpr, depth int, allowNull bool) interface{} {
 		return r.Range(-50, 1000)
 	case "Float":
 		if bad {
-			switch r.Intn(5) {
+			switch r.Intn(6) {
+			case 5:
+				g.tag("v:float-nonfinite-string")
+				return r.Pick(nonFinite)
 			case 0:
 				g.tag("v:float-numeric-string")
 				return r.Pick([]string{"5", "2.5", "-0.125", "007", "10.50"})
@@ -1716,6 +1726,57 @@ func typeText(t ast.Type) string {
 	return ""
 }
 
+// nonFiniteSweep enumerates the class "string that strconv.ParseFloat reads as NaN / ±Inf (and near misses)" for the
+// numeric scalars at every nesting position: bare, list element, list-of-one, nested non-null list, input-object field,
+// list field, nested object, object inside a list; pointwise (real vs M vs S) and end to end through a variable.
+func (h *harness) nonFiniteSweep(s *gq.SchemaDesc) {
+	nf := gq.TypeDesc{Kind: "INPUT_OBJECT", Name: "NF", InputFields: []gq.ArgDesc{{Name: "i", Type: "Int"}, {Name: "f", Type: "Float"},
+		{Name: "li", Type: "[Int]"}, {Name: "lf", Type: "[Float!]"}, {Name: "n", Type: "NF"}, {Name: "ri", Type: "Int!"}}}
+	s2 := *s
+	s2.Types = append(append([]gq.TypeDesc{}, s.Types...), nf)
+	b, err := gq.Build(&s2, baseHooks())
+	if err != nil {
+		h.run.CheckError("schema does not build: " + err.Error())
+		return
+	}
+	type pos struct {
+		typ string
+		val func(x interface{}) interface{}
+	}
+	obj := func(k string, v interface{}) map[string]interface{} { return map[string]interface{}{"ri": 1, k: v} }
+	for _, leaf := range []string{"Int", "Float"} {
+		lf := map[string]string{"Int": "i", "Float": "f"}[leaf]
+		ll := map[string]string{"Int": "li", "Float": "lf"}[leaf]
+		positions := []pos{
+			{leaf, func(x interface{}) interface{} { return x }},
+			{leaf + "!", func(x interface{}) interface{} { return x }},
+			{"[" + leaf + "]", func(x interface{}) interface{} { return []interface{}{1, x, 2} }},
+			{"[" + leaf + "]", func(x interface{}) interface{} { return x }},
+			{"[[" + leaf + "!]]", func(x interface{}) interface{} { return []interface{}{[]interface{}{x}} }},
+			{"NF", func(x interface{}) interface{} { return obj(lf, x) }},
+			{"NF", func(x interface{}) interface{} { return obj(ll, []interface{}{x}) }},
+			{"NF!", func(x interface{}) interface{} { return obj("n", obj(lf, x)) }},
+			{"[NF]", func(x interface{}) interface{} { return []interface{}{obj(lf, 3), obj(lf, x)} }},
+			{"NF", func(x interface{}) interface{} { return map[string]interface{}{"ri": x} }},
+		}
+		for pi, p := range positions {
+			for _, x := range nonFinite {
+				tags := map[string]bool{"sweep:nonfinite-string-" + leaf: true, fmt.Sprintf("sweep:position-%d", pi): true}
+				h.pointWith(pointCase{Kind: "point", Schema: &s2, Type: p.typ, HasValue: true, Value: p.val(x), NumMode: "int"}, b, tags)
+				if h.run.TooManyViolations() {
+					return
+				}
+			}
+		}
+		for i, x := range nonFinite {
+			p := positions[i%len(positions)]
+			ws := withField(&s2, gq.FieldDesc{Name: "cf", Type: "String", Args: []gq.ArgDesc{{Name: "a", Type: p.typ}}})
+			h.exec(execCase{Kind: "exec", Schema: ws, Query: "query($v: " + p.typ + ") { cf(a: $v) }", NumMode: "int",
+				Inputs: map[string]interface{}{"v": p.val(x)}}, map[string]bool{"sweep:nonfinite-string-e2e-" + leaf: true})
+		}
+	}
+}
+
 // fixed probes: the D-05a / D-05b / D-05c shapes (all repaired in /repo: they must pass)
 func (h *harness) probes(s *gq.SchemaDesc) {
 	tags := map[string]bool{"probe": true}
@@ -1791,6 +1852,7 @@ func main() {
 			}
 			if i == 0 {
 				h.probes(s)
+				h.nonFiniteSweep(s)
 			}
 		}
 		r := hx.Fork(run.Seed, i)
